@@ -358,3 +358,175 @@ theorem usys_two_clients_retry_iff {β : Type} (s0 : AbsState) (t : Int) (prb : 
     rw [raceRun_two_eq_one s0 t _ prb r0 u0 W hrow0 h]
 
 end Swat4.C13Run
+
+namespace Swat4.C13Run
+open Swat4 Swat4.UC Std Swat4.VerMono Swat4.RowInv Swat4.USysInd
+
+/-! ## the success and final-failure branches: two scheduled calls -/
+
+/-- the success branch after its clock read at `tn` -/
+def successAfterNow (prb : Probe) (res : ProbeResult) (svr : Server) (tn : Int) : Prog ProbeEnd :=
+  .call (.updateServerT (handleSuccess prb.goal res tn svr) fun t s => some (handleSuccess prb.goal res t s)) fun r =>
+    match r with
+    | .error e => pure (.error (.repo e))
+    | .ok _ => pure .success
+
+theorem probeSuccessRest_step_now (prb : Probe) (res : ProbeResult) (svr : Server) (s : AbsState) (tn : Int) :
+    stepN 1 (probeSuccessRest prb res svr) s tn = (s, successAfterNow prb res svr tn) := rfl
+
+/-- the single pending call of the `W` client -/
+theorem wclient_step {β : Type} (v : USys) (W : Call β) (gW : β → String) (aW : Int)
+    (hv : v.clients[1]? = some ({ prog := .call W fun b => .ret (gW b), started := true, arrival := aW } : UClient)) :
+    (v.step (.call 1)).abs = (W.exec v.abs (wClock W aW v.clock)).1 ∧ (v.step (.call 1)).clock = v.clock ∧
+      (v.step (.call 1)).clients[0]? = v.clients[0]? := by
+  rw [step_call_started v 1 _ hv rfl rfl]
+  refine ⟨?_, rfl, ?_⟩
+  · simp only [Prog.step1, UClient.settle, UClient.callClock, Prog.headAtArrival, wClock]
+    rfl
+  · simp [List.getElem?_set]
+
+/-- **`Get`** of a successful probe (with the eager clock read) -/
+theorem usys_success_get (u : USys) (i : Nat) (c : UClient) (g : ProbeEnd → String) (prb : Probe) (res : ProbeResult) (r0 : Server)
+    (u0 : Int) (hc : u.clients[i]? = some c) (hp : c.prog = rendered (probe prb (some res)) g) (hs : c.started = true)
+    (hd : c.dead = false) (hrow0 : u.abs.getRow prb.addr = some ⟨r0, u0⟩) :
+    u.step (.call i) =
+      { u with clients := u.clients.set i { c with prog := rendered (successAfterNow prb res r0 u.clock) g, arrival := u.clock } } := by
+  have hp' : c.prog = .call (.getServer prb.addr) fun r =>
+      rendered (match r with
+        | .error e => pure (.error (.repo e))
+        | .ok svr => probeSuccessRest prb res svr) g := by rw [hp, probe_unfold]; rfl
+  rw [step_call_started u i c hc (live_of_call c _ _ hp' hd) hs]
+  simp only [hp', Prog.step1, Call.exec, AbsState.get, hrow0, UClient.settle]
+  rfl
+
+/-- **`Update`** of a successful probe: commits at the current clock (the conflict callback stamps that value) -/
+theorem usys_success_update (u : USys) (i : Nat) (c : UClient) (g : ProbeEnd → String) (prb : Probe) (res : ProbeResult) (r0 : Server)
+    (tn : Int) (hc : u.clients[i]? = some c) (hp : c.prog = rendered (successAfterNow prb res r0 tn) g) (hs : c.started = true)
+    (hd : c.dead = false) :
+    (u.step (.call i)).abs = ((successAfterNow prb res r0 tn).run u.abs u.clock).1 := by
+  have hp' : c.prog = .call (.updateServerT (handleSuccess prb.goal res tn r0) fun t s => some (handleSuccess prb.goal res t s)) fun r =>
+      rendered (match r with
+        | .error e => pure (.error (.repo e))
+        | .ok _ => pure .success) g := by rw [hp]; rfl
+  rw [step_call_started u i c hc (live_of_call c _ _ hp' hd) hs]
+  have hcc : c.callClock u.clock = u.clock := by simp [UClient.callClock, hp', Prog.headAtArrival, Call.clockAtArrival]
+  simp only [hp', Prog.step1, hcc, exec_updateServerT, UClient.settle, successAfterNow, Prog.run_call]
+  generalize u.abs.update u.clock (handleSuccess prb.goal res tn r0) (fun s => some (handleSuccess prb.goal res u.clock s)) = r
+  obtain ⟨a, r⟩ := r
+  cases r <;> rfl
+
+/-- **`Update`** of a finally failed probe -/
+theorem usys_fail_update (u : USys) (i : Nat) (c : UClient) (g : ProbeEnd → String) (goal : Goal) (r0 : Server)
+    (hc : u.clients[i]? = some c) (hp : c.prog = rendered (probeFail goal r0) g) (hs : c.started = true) (hd : c.dead = false) :
+    (u.step (.call i)).abs = ((probeFail goal r0).run u.abs u.clock).1 := by
+  have hp' : c.prog = .call (.updateServer (handleFailure goal r0) fun s => some (handleFailure goal s)) fun r =>
+      rendered (match r with
+        | .error e => pure (.error (.repo e))
+        | .ok _ => pure .outOfRetries) g := by rw [hp]; rfl
+  rw [step_call_started u i c hc (live_of_call c _ _ hp' hd) hs]
+  have hcc : c.callClock u.clock = u.clock := by simp [UClient.callClock, hp', Prog.headAtArrival, Call.clockAtArrival]
+  simp only [hp', Prog.step1, hcc, exec_updateServer, UClient.settle, probeFail, Prog.run_call]
+  generalize u.abs.update u.clock (handleFailure goal r0) (fun s => some (handleFailure goal s)) = r
+  obtain ⟨a, r⟩ := r
+  cases r <;> rfl
+
+/-- a started client -/
+def pclient (p : Prog String) (t : Int) : UClient := { prog := p, started := true, arrival := t }
+
+/-- the schedule "probe's `Get`, `W`, probe's `Update`" with ticks in between -/
+def raceSchedule2 (d1 d2 : Int) : List UEv := [.call 0, .tick d1, .call 1, .tick d2, .call 0]
+
+/-- the two-client system for an arbitrary probe outcome -/
+def twoClientsO (s0 : AbsState) (t : Int) (prb : Probe) (outcome : Option ProbeResult) (g : ProbeEnd → String) {β : Type}
+    (W : Call β) (gW : β → String) (aW : Int) : USys :=
+  { abs := s0, clock := t,
+    clients := [{ prog := rendered (probe prb outcome) g, started := true, arrival := t },
+                { prog := .call W fun b => .ret (gW b), started := true, arrival := aW }] }
+
+/-- **bridge, success (two clients, any ticks)**: the system model's store is that of `raceRun (probe prb (some res)) 2 …` —
+`Get` **and** the clock read at `t`, then `W`, then the `Update` at the final clock value: the probe's own copy is stamped
+`t`, the conflict callback stamps the final clock value (`probe_success_race_at`, `k = 2`).  No hypothesis on `W`. -/
+theorem usys_two_clients_success {β : Type} (s0 : AbsState) (t : Int) (prb : Probe) (res : ProbeResult) (g : ProbeEnd → String)
+    (W : Call β) (gW : β → String) (aW d1 d2 : Int) (r0 : Server) (u0 : Int)
+    (hrow0 : s0.getRow prb.addr = some ⟨r0, u0⟩) :
+    ((twoClientsO s0 t prb (some res) g W gW aW).run (raceSchedule2 d1 d2)).abs =
+      (raceRun (probe prb (some res)) 2 t W (wClock W aW (t + d1)) (t + d1 + d2) s0).1 := by
+  have e1 := usys_success_get (twoClientsO s0 t prb (some res) g W gW aW) 0 _ g prb res r0 u0 rfl rfl rfl rfl hrow0
+  have hrun : (twoClientsO s0 t prb (some res) g W gW aW).run (raceSchedule2 d1 d2) =
+      ((((((twoClientsO s0 t prb (some res) g W gW aW).step (.call 0)).step (.tick d1)).step (.call 1)).step (.tick d2)).step (.call 0)) := rfl
+  rw [hrun, e1]
+  have hw := wclient_step (USys.step { (twoClientsO s0 t prb (some res) g W gW aW) with
+      clients := (twoClientsO s0 t prb (some res) g W gW aW).clients.set 0
+        { ({ prog := rendered (probe prb (some res)) g, started := true, arrival := t } : UClient) with
+          prog := rendered (successAfterNow prb res r0 (twoClientsO s0 t prb (some res) g W gW aW).clock) g,
+          arrival := (twoClientsO s0 t prb (some res) g W gW aW).clock } } (.tick d1)) W gW aW rfl
+  generalize hv3 : USys.step (USys.step _ (.tick d1)) (.call 1) = v3 at hw
+  have hc4 : (v3.step (.tick d2)).clients[0]? = some ({ ({ prog := rendered (probe prb (some res)) g, started := true, arrival := t } : UClient) with
+      prog := rendered (successAfterNow prb res r0 t) g, arrival := t }) := by
+    show v3.clients[0]? = _
+    rw [hw.2.2]; rfl
+  rw [usys_success_update (v3.step (.tick d2)) 0 _ g prb res r0 t hc4 rfl rfl rfl]
+  have habs : (v3.step (.tick d2)).abs = (W.exec s0 (wClock W aW (t + d1))).1 := by
+    show v3.abs = _
+    rw [hw.1]; rfl
+  have hclk : (v3.step (.tick d2)).clock = t + d1 + d2 := by
+    show v3.clock + d2 = _
+    rw [hw.2.1]; rfl
+  rw [habs, hclk]
+  unfold raceRun
+  rw [show (2 : Nat) = 1 + 1 from rfl, stepN_add, probe_step_get s0 t prb (some res) r0 u0 hrow0]
+  rfl
+
+/-- **bridge, final failure (two clients, any ticks)**: the failure branch reads no clock, so the system model's store is
+exactly that of `raceRun (probe prb none) 1 …`, the history of `probe_failure_race`, whatever the ticks -/
+theorem usys_two_clients_failure {β : Type} (s0 : AbsState) (t : Int) (prb : Probe) (g : ProbeEnd → String)
+    (W : Call β) (gW : β → String) (aW d1 d2 : Int) (r0 : Server) (u0 : Int)
+    (hrow0 : s0.getRow prb.addr = some ⟨r0, u0⟩) (h : prb.retries ≥ prb.maxRetries) :
+    ((twoClientsO s0 t prb none g W gW aW).run (raceSchedule2 d1 d2)).abs =
+      (raceRun (probe prb none) 1 t W (wClock W aW (t + d1)) (t + d1 + d2) s0).1 := by
+  -- the probe's `Get`
+  have hp0 : rendered (probe prb none) g = .call (.getServer prb.addr) fun r =>
+      rendered (match r with
+        | .error e => pure (.error (.repo e))
+        | .ok svr => probeRetry prb svr) g := by rw [probe_unfold]; rfl
+  have hpf : rendered (probeFail prb.goal r0) g =
+      .call (.updateServer (handleFailure prb.goal r0) fun s => some (handleFailure prb.goal s)) fun r =>
+        rendered (match r with
+          | .error e => pure (.error (.repo e))
+          | .ok _ => pure .outOfRetries) g := rfl
+  have e1 : (twoClientsO s0 t prb none g W gW aW).step (.call 0) =
+      { (twoClientsO s0 t prb none g W gW aW) with clients := (twoClientsO s0 t prb none g W gW aW).clients.set 0 (pclient (rendered (probeFail prb.goal r0) g) t) } := by
+    rw [step_call_started _ 0 _ rfl (live_of_call _ _ _ hp0 rfl) rfl]
+    have hrow0' : (twoClientsO s0 t prb none g W gW aW).abs.getRow prb.addr = some ⟨r0, u0⟩ := hrow0
+    simp only [hp0, Prog.step1, Call.exec, AbsState.get, hrow0', UClient.settle]
+    rw [probeRetry_final prb r0 h, hpf]
+    rfl
+  have hrun : (twoClientsO s0 t prb none g W gW aW).run (raceSchedule2 d1 d2) =
+      ((((((twoClientsO s0 t prb none g W gW aW).step (.call 0)).step (.tick d1)).step (.call 1)).step (.tick d2)).step (.call 0)) := rfl
+  rw [hrun, e1]
+  have hw := wclient_step (USys.step { (twoClientsO s0 t prb none g W gW aW) with clients := (twoClientsO s0 t prb none g W gW aW).clients.set 0 (pclient (rendered (probeFail prb.goal r0) g) t) } (.tick d1)) W gW aW rfl
+  generalize hv3 : USys.step (USys.step _ (.tick d1)) (.call 1) = v3 at hw
+  have hc4 : (v3.step (.tick d2)).clients[0]? = some (pclient (rendered (probeFail prb.goal r0) g) t) := by
+    show v3.clients[0]? = _
+    rw [hw.2.2]; rfl
+  have habs : (v3.step (.tick d2)).abs = (W.exec s0 (wClock W aW (t + d1))).1 := by
+    show v3.abs = _
+    rw [hw.1]; rfl
+  have hclk : (v3.step (.tick d2)).clock = t + d1 + d2 := by
+    show v3.clock + d2 = _
+    rw [hw.2.1]; rfl
+  rw [usys_fail_update (v3.step (.tick d2)) 0 _ g prb.goal r0 hc4 rfl rfl rfl, habs, hclk]
+  unfold raceRun
+  rw [probe_step_get s0 t prb none r0 u0 hrow0]
+  simp only
+  rw [probeRetry_final prb r0 h]
+
+/-- success, no clock movement: reading the clock before or after the concurrent call makes no difference -/
+theorem raceRun_success_two_eq_one {β : Type} (s0 : AbsState) (t tW : Int) (prb : Probe) (res : ProbeResult) (r0 : Server) (u0 : Int)
+    (W : Call β) (hrow0 : s0.getRow prb.addr = some ⟨r0, u0⟩) :
+    raceRun (probe prb (some res)) 2 t W tW t s0 = raceRun (probe prb (some res)) 1 t W tW t s0 := by
+  unfold raceRun
+  rw [show (2 : Nat) = 1 + 1 from rfl, stepN_add, probe_step_get s0 t prb (some res) r0 u0 hrow0]
+  rfl
+
+end Swat4.C13Run
